@@ -20,12 +20,12 @@ NA = {
  "C28": "minicbor derive output and the brotli codec (macro-generated code and a large external codec); size-limit loop needs ~1000 iterations with an external reader (DESIGN §6)",
 }
 
-K_FIFO = "not decided: its contract is stated in DESIGN §4 over the per-transaction kernel (Updater::index_transaction_sats, U-FIFO); the extracted kernel did not finish under Kani/CBMC even for 2 ranges x 2 outputs (20 min) - chains of growing Vec<u8> with symbolic lengths are the measured cost driver (DESIGN §0.6) - and Verus rejects its iterator-adapter code; a smaller stand-in would be a model, not the code. The storage encodings it writes and reads are under contract in C35"
+K_FIFO = "not decided as a whole: the per-transaction kernel (Updater::index_transaction_sats) is proved in the C01 unit, but this property is about the partition of ALL mined sats over the UTXO set at every height and about the lookup functions (Index::find, find_range, list, rare_sat_satpoint), which scan redb tables and are outside both verifiers' reach; the removal of spent outputs before their ranges are reused is glue inside Updater::index_utxo_entries (DESIGN §0.6, §6)"
 K_INS = "not decided: lives in InscriptionUpdater::index_inscriptions over redb tables, HashMaps and Vec sorting; the function is outside Verus's subset and was not brought under Kani in the budget (engine E2 exists since round 3 but only value-level files and small extracted kernels fit it; DESIGN §0.2, §6)"
 K_ARTIFACT = "not decided: the deciding function RuneUpdater::index_runes (edict allocation, pointer, burns) cannot be taken by either verifier - Kani 0.68 aborts with an internal compiler error on every read of the discriminant of ordinals::Artifact (niche in the 128-bit tag of an Option<u128>; measured with probe harnesses, DESIGN §0.6), and Verus rejects its HashMap / closure / iterator-adapter code; the kernel functions around it are under contract (C10 mint, C11 etched / create_rune_entry, C08 unallocated)"
 K_ORD = "not decided: the functions live in the `ord` crate outside the value-level files and small kernels that engine E2 reaches (DESIGN §0.2, §6)"
 UNBUILT = {
- "C01": K_FIFO, "C02": K_FIFO, "C03": K_FIFO + "; the inscription-movement half is in index_inscriptions (see C04)",
+ "C02": K_FIFO,
  "C09": K_ARTIFACT + ". The arithmetic it uses (Lot, even split) is under contract in C08",
  "C16": "not decided as stated (whole-chain totality): panic-freedom obligations are discharged for the functions under contract in C25/C26 (varint, Runestone::integers), C27 (from_value, pointer), C31 (parsers), C35 (decoders of stored values) and C10/C08 (mint, update, unallocated never error), but envelope parsing, Properties::from_cbor, index_inscriptions and index_runes are not under contract, so the property as a whole is not claimed",
  "C20": K_ORD + "; TransactionBuilder is ~1000 lines over BTreeMap/Vec state with f64 fee arithmetic",
